@@ -189,6 +189,12 @@ def reader_output_lists(data, rng=None):
         held = sg.output_tensors[:len(sg.output_tensors) - nv] if nv else list(sg.output_tensors)
         pos = sg.original_output_positions
         rows.append((orig, [len(held)] + [idx[id(t)] for t in held] + [int(x) for x in (pos if pos is not None else [])]))
+        if rng is None:                          # the input list, as it is in the file
+            vi = model.Subgraphs(k).InputsAsNumpy()
+            origi = [] if isinstance(vi, int) else [int(x) for x in vi]
+            posi = sg.original_input_positions
+            rows.append((origi, [len(sg.original_inputs)] + [idx[id(t)] for t in sg.original_inputs] +
+                         [int(x) for x in (posi if posi is not None else [])]))
     return rows
 
 
@@ -198,6 +204,14 @@ def run(tier):
     okx, xlog = vlib.build_extraction("preserve")
     n = 64 if tier == "quick" else 1600
     jobs = compiles.corpus_jobs(capture=False) + compiles.plan(FAMS, n, vlib.seed(), tag="c11", capture=False)
+    # networks only this check compiles (interfaces that the execution-based checks' harnesses do not feed: a tensor listed
+    # twice among the subgraph inputs)
+    import glob, os
+    for f in sorted(glob.glob(os.path.join(vlib.ROOT, "corpus", "c11", "*.json"))):
+        d = json.load(open(f))
+        path = os.path.join(os.path.dirname(f), d["tflite"])
+        jobs.append({"tflite": path, "sha": hashlib.sha256(open(path, "rb").read()).hexdigest()[:16], "args": d["args"],
+                     "capture": False, "family": "corpus", "seed": "c11/" + os.path.basename(f)})
     import netgen
     import random
     rk = random.Random("c11kinds/%d" % vlib.seed())
@@ -246,7 +260,7 @@ def run(tier):
             data = open(src_path, "rb").read()
             for variant in range(4):
                 for row in reader_output_lists(data, None if variant == 0 else random.Random("c11ol/%s/%d" % (r["job"]["seed"], variant))):
-                    if variant == 0 or len(row[0]) >= 2:
+                    if variant == 0 or len(row[0]) >= 2:        # variant 0: output and input list of every subgraph
                         ol_cases.append(row)
         except BaseException as ex:  # noqa
             ol_errors.append("%s: %s: %s" % (r.get("net_name"), type(ex).__name__, ex))
